@@ -24,7 +24,7 @@ EXPLANATION = (
     'assembly gives every positional parameter exactly one outcome; (g) '
     'Functor._on_change processes every update of a batch.  Agreement with '
     'the interpreter\'s binding rules is differential and not decided.')
-FLOORS = {'C18.a': 8, 'C18.b': 2, 'C18.c': 2, 'C18.d': 5, 'C18.e': 1, 'C18.f': 3, 'C18.g': 1}
+FLOORS = {'C18.a': 4, 'C18.b': 1, 'C18.c': 1, 'C18.d': 2, 'C18.e': 1, 'C18.f': 1, 'C18.g': 1}
 FILES = ['pyglove/core/symbolic/functor.py', 'pyglove/core/symbolic/class_wrapper.py',
          'pyglove/core/symbolic/symbolize.py', 'pyglove/core/typing/callable_signature.py',
          'pyglove/core/coding/function_generation.py', 'pyglove/core/symbolic/object.py']
@@ -56,7 +56,7 @@ def rule_a(ctx):
         for r_ in [n for n in ast.walk(f.node) if isinstance(n, ast.Return)]:
           pass
   # the trailing else: assert kind == VAR_KEYWORD; return Kind.VAR_KEYWORD
-  rets = [n for n in ast.walk(f.node) if isinstance(n, ast.Return)]
+  rets = sorted([n for n in ast.walk(f.node) if isinstance(n, ast.Return)], key=lambda n: n.lineno)
   asserts = [n for n in ast.walk(f.node) if isinstance(n, ast.Assert)]
   for a in asserts:
     t = A.unparse(a.test)
